@@ -190,11 +190,13 @@ func (r *Receiver) Close() error {
 		r.topicSub.Cancel()
 	}
 
+	// Tell Next to stop waiting. Done before the lock is released: another
+	// Close call that finds the receiver closed returns at once, and what its
+	// caller does next must find it closed as well.
+	close(r.done)
+
 	r.announceMutex.Unlock()
 	verifhook.Point("recv.closing", nil)
-
-	// Tell Next to stop waiting.
-	close(r.done)
 
 	// Cancel watch and wait for pubsub watch to exit.
 	if r.cancelWatch != nil {
